@@ -42,7 +42,9 @@ inline FailTally& fail_tally () { thread_local FailTally t; return t; }
 template <class FI, class FE, class FG> inline void fail_lazy (const std::string& site, FI in, FE want, FG got)
 {
     FailTally& t = fail_tally ();
-    if (++t.seen[site] <= 4 || vf::R ().replay) vf::R ().fail (site, in (), want (), got ());
+    const long long n = ++t.seen[site];
+    // replay: the engine echoes every failure to stderr; format (per thread) the first 64 of the replayed site only
+    if (n <= 4 || (vf::R ().replay && site == vf::R ().replay_filter_site && n <= 64)) vf::R ().fail (site, in (), want (), got ());
     else ++t.pending[site];
 }
 inline void flush_failures ()
